@@ -7,6 +7,7 @@ let () = Drv_meaning.(ignore linked)
 let () = Drv_ambig.(ignore linked)
 let () = Drv_emit.(ignore emit_linked)
 let () = Drv_dot.(ignore linked)
+let () = Drv_bashsem.(ignore linked)
 let () = Drv_amb.(ignore linked)
 let () = Drv_driver.(ignore linked)
 let () = Drv_minimize.(ignore of_min_outcome)
